@@ -15,7 +15,7 @@ Quiescent == ready = <<>>
 \* one of these deviation clauses is excused for THAT property only.
 DevOf(p) == CASE p = "C01" -> {}
               [] p = "C02" -> {}
-              [] p = "C03" -> {"D11"}
+              [] p = "C03" -> {}
               [] p = "C04" -> {}
               [] p = "C05" -> {}
               [] p = "C06" -> {}
